@@ -578,6 +578,9 @@ func (w *World) process(t *Transport, p *Pkt, ev Event) ([]byte, []int) {
 		}
 		if plan.Code != 0 {
 			ev["connack"] = "refused"
+			t.mu.Lock()
+			t.closeWhenDrained = true
+			t.mu.Unlock()
 			return ConnAck(false, byte(plan.Code)), deliv
 		}
 		sp := w.everAccepted
@@ -685,6 +688,9 @@ type Transport struct {
 	accepted bool
 	sp       bool
 	reqCount int
+	// closeWhenDrained: the broker closes the connection once the client has consumed what was sent
+	// (MQTT-3.2.2-5: after a CONNACK with a non-zero return code the server closes the network connection)
+	closeWhenDrained bool
 
 	// MaxReadBuf is the largest buffer the client ever asked Read to fill (C06).
 	MaxReadBuf int
@@ -833,6 +839,12 @@ func (t *Transport) Read(p []byte) (int, error) {
 			}
 			t.W.Rec.Emit(re)
 			t.in = t.in[1:]
+			if len(t.in) == 0 && t.closeWhenDrained && !t.closed {
+				t.closed = true
+				t.closedBy = "peer"
+				t.W.Rec.Emit(Event{"e": "Close", "g": t.G, "by": "peer"})
+				t.cond.Broadcast()
+			}
 		} else {
 			break
 		}
